@@ -79,6 +79,14 @@ func canonicalFiles(legacy bool, M uint64) [][]string {
 				lines = lines[1:]
 			}
 		}
+		if i%3 == 0 {
+			// with the metadata header load files usually carry
+			hdr := []string{";redcode", ";name Some Name", ";author A. U. Thor", ";strategy one line", ";strategy", ";assert 1"}
+			lines = append(hdr, lines...)
+			if i%2 == 0 {
+				lines = append(lines, ";strategy")
+			}
+		}
 		out = append(out, lines)
 	}
 	return out
